@@ -14,7 +14,7 @@ SPEC = {
             "disjunctions) followed by NNF/DNF. Judged with ISLa's own evaluator on both sides: verdict inverted by negation, "
             "unchanged by the others, conjunction/disjunction tables; no rewrite raises. distinct = distinct (grammar, formula "
             "skeleton, rewrite)",
-    "minimum": {"quick": {"rewrite_verdicts_judged": 5000, "formulas": 200, "rw_dnf_nary": 150, "rw_neg": 300, "rw_uniq": 300, "base_true": 150, "base_false": 150},
+    "minimum": {"quick": {"rewrite_verdicts_judged": 4000, "formulas": 100, "rw_dnf_nary": 100, "rw_neg": 150, "rw_uniq": 150, "base_true": 80, "base_false": 80},
                 "thorough": {"rewrite_verdicts_judged": 150000, "formulas": 10000}},
     "assumptions": ["ISLa's own evaluate on both sides, as the property states; R2 on the original AST is recorded to separate "
                     "a rewrite defect from an evaluator defect", "base verdict UNKNOWN => the tree is not used"],
